@@ -24,13 +24,13 @@ tie:   2-4 real tasks enter/leave guarded sections through Cache.lock, @cache.lo
 from __future__ import annotations
 
 import json
-import os
 from pathlib import Path
 
 from .. import lockrun
 from ..core import ROOT, Check, Driver, HarnessError, ddmin, proof_stage
 
 PROP = "C06"
+D43 = "D43:lock-probe-routed-by-message-text"
 BATCH = 250
 DRIVER = Driver("driver_c06", "Drivers/C06.lean")
 CFGS = list(lockrun.CONFIGS)
@@ -62,13 +62,7 @@ TRUSTED = [
     "capacity eviction of lock keys excluded (size=1000 >> keys; C11)",
 ]
 
-PARTIAL = ("KNOWN DEVIATION kept out of the generated space (finding lock_probe_routed_by_message_text, "
-           "proposed_fixes/C06_lock_probe_routed_by_key.diff): at /repo HEAD the facade's liveness probe ping(b'LOCK') is routed by the text "
-           "of the message, i.e. to the default-prefix backend, not to the backend owning the lock key - with the lock key on a prefixed "
-           "backend and the default backend disabled / without PING every contended lock falls through, and without a default backend a "
-           "contended lock() raises NotConfiguredError; generated configurations therefore keep a default backend that answers PING exactly "
-           "when the owning backend does (VERIF_C06_FOREIGN_PROBE=1 lifts this and reports the violation on HEAD); health is configured "
-           "before the tasks start (disable/enable while tasks run is context-local: C17). "
+PARTIAL = ("health of the backends is configured before the tasks start (disable/enable while tasks run is context-local: C17); "
            "the model cannot exhibit: a second cancellation delivered inside the `finally: unlock` (possible only on a "
            "backend whose unlock suspends; not on Memory), generators abandoned without aclose(), lock keys evicted "
            "by capacity pressure, uuid collisions, non-dyadic ttls; more than 4 tasks / 2 keys are not sampled; a generated program "
@@ -137,7 +131,7 @@ class Analysis:
                 return owners[key]
             own = lockrun.owner_prefix(key, backends)
             if own is None or own != knum(key) // 100:
-                if own is None and not self.case.get("foreign_probe"):
+                if own is None:
                     raise HarnessError(f"case uses lock key {key!r} that no configured backend owns")
                 if own is not None:
                     raise HarnessError(f"case builds lock key {key!r} with a prefix that is not configured")
@@ -166,18 +160,25 @@ class Analysis:
                              f"first set_lock of a lock() call came {now - si['t']} ticks after the call")
             return a
 
-        # after which refused set_lock did the facade's liveness probe come back None?  (one pass over the log)
+        # after which refused set_lock did the facade's liveness probe come back None, and which backends were asked?
+        # (one pass over the log)
         unanswered: set[int] = set()
+        pinged: dict[int, list] = {}
         last_refused: dict = {}
         for i, e in enumerate(ev):
             k = e["ev"]
             if k == "set_lock":
                 last_refused[e["sec"]] = None if e["res"] else i
             elif k == "mw_ping":
-                if not e["res"] and last_refused.get(e.get("sec")) is not None:
-                    unanswered.add(last_refused[e["sec"]])
+                j = last_refused.get(e.get("sec"))
+                if j is not None:
+                    pinged.setdefault(j, []).append(e["be"])
+                    if not e["res"]:
+                        unanswered.add(j)
             elif k in ("body_enter", "outcome", "disabled") and e.get("sec") in last_refused:
                 last_refused[e["sec"]] = None
+        # the backend that owns the TEXT "LOCK" (defect D43: the probe `ping(b"LOCK")` was routed to it, not to the key's owner)
+        text_owner = lockrun.owner_prefix("LOCK", backends)
 
         for b in backends:
             if health[b["p"]] != (True, True):
@@ -268,6 +269,7 @@ class Analysis:
                         a["failed"] = True
                     if out == "D":
                         a["unguarded"] = "D"     # lock() yields without the lock: "backend down"
+                        a["pinged"] = pinged.get(i, [])
                     self.tags.add("contended_attempt")
                     if in_tx:
                         self.tags.add("contended_attempt_inside_transaction")
@@ -276,6 +278,12 @@ class Analysis:
                         self.tags.add("contended_attempt_while_holder_inside_transaction")
                     if unhealthy_other(owner_of(key)) and health[owner_of(key)] == (True, True):
                         self.tags.add("contended_attempt_with_another_backend_unhealthy")
+                    if owner_of(key) != 0 and health[owner_of(key)] == (True, True) and \
+                            (text_owner is None or not health[text_owner][1]):
+                        self.tags.add("contended_attempt_healthy_prefixed_owner_default_backend_absent_or_silent")
+                    if owner_of(key) != 0 and health[owner_of(key)] == (True, False) and text_owner is not None \
+                            and health[text_owner] == (True, True):
+                        self.tags.add("contended_attempt_prefixed_owner_silent_default_backend_healthy")
                 a["attempts"] += 1
                 if timed and si["wait"] and a["last_attempt_t"] is not None:
                     ci = si.get("ci", 0)
@@ -425,10 +433,14 @@ class Analysis:
                         legit = True          # the owning backend does not answer the probe: lock()'s documented fallback
                         self.tags.add("unguarded_entry_owner_does_not_answer_probe")
                     elif why == "D":
-                        self.problem("property", "body_without_lock",
+                        asked = a.get("pinged") or []
+                        d43 = asked == [text_owner] and text_owner != owner_of(key)
+                        self.problem("property", D43 if d43 else "body_without_lock",
                                      f"the guarded body of section {sec} on {key} started without holding the lock: after a refused "
                                      "set_lock the liveness probe of lock() came back None although the backend that owns the key "
-                                     "is healthy (enabled, answers PING)")
+                                     "is healthy (enabled, answers PING)"
+                                     + (f"; the probe was sent to the backend under prefix {lockrun.PREFIXES[text_owner]!r}, which owns "
+                                        "the text 'LOCK' of the message, not the lock key (regression of D43)" if d43 else ""))
                     elif why == "N":
                         self.problem("property", "body_without_lock",
                                      f"the guarded body of section {sec} on {key} started without holding the lock: set_lock was "
@@ -463,7 +475,13 @@ class Analysis:
                         self.tags.add("cancelled_while_waiting")
                     if a["acq"] is None and e["outcome"] == "ok":
                         self.problem("property", "body_without_lock", "section completed although the lock was never acquired")
-                if e["outcome"].startswith("other:"):
+                if e["outcome"] == "other:NotConfiguredError" and text_owner is None and a is not None and a["acq"] is None \
+                        and a["attempts"] and health[owner_of(a["key"])][0]:
+                    self.problem("property", D43,
+                                 f"a contended lock() on {a['key']} raised NotConfiguredError instead of waiting / LockedError: the "
+                                 "liveness probe is routed by the text 'LOCK' of its message, which no configured backend owns "
+                                 "(regression of D43)")
+                elif e["outcome"].startswith("other:"):
                     self.problem("correspondence", "unexpected_exception", f"section raised {e['outcome'][6:]}")
             elif kind == "horizon":
                 if deadlocked():
@@ -694,49 +712,46 @@ def gen_case(rng, i) -> dict:
 
 
 FACADE_CFGS = [c for c in CFGS if lockrun.CONFIGS[c]["facade"]]
-# The liveness probe of lock() at /repo HEAD is `self.ping(b"LOCK")` on the facade, which routes by the TEXT OF THE MESSAGE:
-# it asks the backend that owns the string "LOCK" (the default-prefix backend), not the one that owns the lock key, and raises
-# NotConfiguredError when there is no default-prefix backend (finding reported with proposed_fixes/C06_lock_probe_routed_by_key.diff).
-# Until that is repaired the generated configurations keep the two aligned: a default-prefix backend exists and answers PING
-# exactly when the owning backend does.  VERIF_C06_FOREIGN_PROBE=1 lifts the restriction (cases marked "foreign_probe").
-FOREIGN_PROBE = os.environ.get("VERIF_C06_FOREIGN_PROBE") == "1"
 OFFS = [[], [], [], "all", "all", ["ping"], ["set_lock"], ["ping", "set_lock"]]
 
 
-def _ping_on(off) -> bool:
-    return off != "all" and "ping" not in off
-
-
-def gen_backends(rng, foreign=False):
-    """2-3 backends under different prefixes in drawn states of health + the prefixes lock keys are built with.
+def gen_backends(rng):
+    """1-3 backends under different prefixes in drawn states of health + the prefixes lock keys are built with.
     Most draws have a fully healthy owner and at least one other backend that is disabled entirely / has lost PING or
-    SET_LOCK; some have an unhealthy owner (set_lock disabled = no locking; no answer to the probe = lock()'s fallback)."""
-    ps = [0] + rng.sample([1, 2], rng.choice([1, 1, 2]))
-    if foreign and rng.random() < 0.4:
-        ps = ps[1:]
-    backends = [{"p": p, "off": rng.choice(OFFS)} for p in ps]
-    if rng.random() < 0.7:                      # the interesting class: a healthy owner next to an unhealthy backend
-        own = rng.choice(backends)
-        own["off"] = []
-        others = [b for b in backends if b is not own]
-        if others and all(not b["off"] for b in others):
-            rng.choice(others)["off"] = rng.choice(["all", "all", ["ping"], ["ping", "set_lock"]])
-        owners = [own["p"]] + ([rng.choice(others)["p"]] if others and rng.random() < 0.25 else [])
+    SET_LOCK; some have an unhealthy owner (set_lock disabled = no locking; no answer to the probe = lock()'s fallback).
+    The probe of lock() has to go to the backend that owns the lock key, not to the one that owns the text of its message
+    (D43): a share of the draws has a healthy owner under a prefix while the default-prefix backend is absent / disabled /
+    without PING, and the reverse (the prefixed owner does not answer the probe, the default backend is healthy)."""
+    r = rng.random()
+    if r < 0.3:
+        own = {"p": rng.choice([1, 2]), "off": []}
+        backends = [own]
+        d = rng.choice(["absent", "all", ["ping"], ["ping", "set_lock"]])
+        if d != "absent":
+            backends.append({"p": 0, "off": d})
+        if rng.random() < 0.4:
+            backends.append({"p": 3 - own["p"], "off": rng.choice(OFFS)})
+        owners = [own["p"]]
+    elif r < 0.45:
+        own = {"p": rng.choice([1, 2]), "off": ["ping"]}
+        backends = [own, {"p": 0, "off": []}]
+        if rng.random() < 0.4:
+            backends.append({"p": 3 - own["p"], "off": rng.choice(OFFS)})
+        owners = [own["p"]] + ([0] if rng.random() < 0.3 else [])
     else:
-        owners = [b["p"] for b in rng.sample(backends, min(len(backends), rng.choice([1, 1, 2])))]
-    if not foreign:
-        default = backends[0]
-        for b in backends:
-            if b["p"] in owners and b is not default and b["off"] != "all" and "set_lock" not in b["off"] \
-                    and _ping_on(b["off"]) != _ping_on(default["off"]):
-                if default["p"] in owners or rng.random() < 0.5:
-                    b["off"] = ["ping"] if _ping_on(b["off"]) else []
-                else:
-                    default["off"] = [] if _ping_on(b["off"]) else rng.choice(["all", ["ping"]])
-        for b in backends:                       # the default backend may have been changed: re-check every owner
-            if b["p"] in owners and b is not default and b["off"] != "all" and "set_lock" not in b["off"] \
-                    and _ping_on(b["off"]) != _ping_on(default["off"]):
-                b["off"] = ["ping"] if _ping_on(b["off"]) else []
+        ps = [0] + rng.sample([1, 2], rng.choice([1, 1, 2]))
+        if rng.random() < 0.15:
+            ps = ps[1:]
+        backends = [{"p": p, "off": rng.choice(OFFS)} for p in ps]
+        if rng.random() < 0.7:                      # a healthy owner next to an unhealthy backend
+            own = rng.choice(backends)
+            own["off"] = []
+            others = [b for b in backends if b is not own]
+            if others and all(not b["off"] for b in others):
+                rng.choice(others)["off"] = rng.choice(["all", "all", ["ping"], ["ping", "set_lock"]])
+            owners = [own["p"]] + ([rng.choice(others)["p"]] if others and rng.random() < 0.25 else [])
+        else:
+            owners = [b["p"] for b in rng.sample(backends, min(len(backends), rng.choice([1, 1, 2])))]
     rng.shuffle(backends)                        # registration order is not prefix order
     return backends, owners
 
@@ -788,15 +803,13 @@ def gen_multi_case(rng, i) -> dict:
     2-3 tasks contend for lock keys routed to one (mostly healthy) backend."""
     gated = i % 2 == 1
     ntasks = rng.choice([2, 2, 3])
-    backends, owners = gen_backends(rng, FOREIGN_PROBE)
+    backends, owners = gen_backends(rng)
     main = owners[0]
     tasks = [gen_task(rng, 1 if rng.random() < 0.8 else 2, gated) for _ in range(ntasks)]
     for prog in tasks:
         assign_backends(prog, rng, backends, owners, main)
     case = {"mode": "gated" if gated else "timed", "cfg": FACADE_CFGS[(i // 2) % len(FACADE_CFGS)], "backends": backends,
             "tasks": tasks}
-    if FOREIGN_PROBE:
-        case["foreign_probe"] = True
     return _finish_case(rng, case, gated, ntasks)
 
 
@@ -872,7 +885,7 @@ def gen_tx_case(rng, i) -> dict:
             wrapped += 1
     case = {"mode": "gated" if gated else "timed", "cfg": FACADE_CFGS[(i // 2) % len(FACADE_CFGS)], "tasks": tasks}
     if rng.random() < 0.25:
-        backends, owners = gen_backends(rng, False)
+        backends, owners = gen_backends(rng)
         for prog in tasks:
             assign_backends(prog, rng, backends, owners, owners[0])
         case["backends"] = backends
@@ -1332,12 +1345,12 @@ def run(chk: Check) -> int:
                             "body; commit and rollback; application writes into the overlay) while the other tasks are inside their own "
                             "transaction or outside any; timed and gated; a quarter of them on several backends",
         "multi_backend_cases": nmulti,
-        "multi_backend_rule": "gen_multi_case: Cache with 2-3 backends under the prefixes '', 'p:', 'q:' (registration order shuffled), each "
+        "multi_backend_rule": "gen_multi_case: Cache with 1-3 backends under the prefixes '', 'p:', 'q:' (registration order shuffled), each "
                               "healthy / disabled entirely / PING disabled / SET_LOCK disabled / both; lock keys built with the prefix of "
                               "one (mostly healthy) owner and contended by 2-3 tasks; the model is told every backend's health and reads "
                               "the attempt's inputs off the backend that owns the key"
-                              + ("" if FOREIGN_PROBE else "; restriction (finding lock_probe_routed_by_message_text, see level_note): a "
-                                 "default-prefix backend exists and answers PING exactly when the owning backend does"),
+                              "; a share of the draws has a healthy owner under a prefix with the default-prefix backend absent / "
+                              "disabled / without PING, and the reverse (D43: the probe goes to the owner of the key, not of the text 'LOCK')",
         "purge_race_cases": nrace,
         "purge_race_rule": "timed cases on the purge configurations built around one purge tick: overstaying holders leave "
                            "expired lock entries in the store, an acquirer starts at the very instant of the tick (0-2 idle "
@@ -1364,6 +1377,8 @@ INTERESTING = {
     "lock_taken_inside_transaction", "contended_attempt_inside_transaction", "contended_attempt_while_holder_inside_transaction",
     "transaction_opened_inside_section", "contended_attempt_with_another_backend_unhealthy",
     "unguarded_entry_set_lock_disabled", "unguarded_entry_owner_does_not_answer_probe", "two_bodies_overlap_no_locking",
+    "contended_attempt_healthy_prefixed_owner_default_backend_absent_or_silent",
+    "contended_attempt_prefixed_owner_silent_default_backend_healthy",
 }
 
 
